@@ -482,12 +482,45 @@ func checkArr(c arrCase) string {
 	if _, ok := keysOf(c.Fn, arr); !ok {
 		return ""
 	}
-	var input any = univ.Copy(arr)
-	if pairFns[c.Fn] {
-		input = []any{univ.Copy(arr), univ.Copy(c.X.X)}
+	return runArr(c.Fn, univ.Copy(arr).([]any), univ.Copy(c.X.X), arr, c.X.X)
+}
+
+// runArr runs fn on the Go values arrIn (and xIn) twice and judges both
+// results against the oracle computed on oarr / ox (deep copies taken before,
+// never shown to gojq).  Besides the order clauses it demands what makes them
+// meaningful for a caller: the call leaves its operands as they were, and the
+// first result is not changed by the second call.
+func runArr(fn string, arrIn []any, xIn any, oarr []any, ox any) string {
+	var input any = arrIn
+	if pairFns[fn] {
+		input = []any{arrIn, xIn}
 	}
-	res := run.Exec(code, input, 0, 4)
-	return judgeArr(c.Fn, arr, c.X.X, res, fmt.Sprintf("%s on %s", arrQueries[c.Fn], univ.Show(input)))
+	where := fmt.Sprintf("%s on %s", arrQueries[fn], univ.Show(input))
+	untouched := func(when string) string {
+		if !univ.Same(arrIn, oarr) {
+			return fmt.Sprintf("%s: the input array was modified by %s; it is now %s", where, when, univ.Show(arrIn))
+		}
+		if pairFns[fn] && !univ.Same(xIn, ox) {
+			return fmt.Sprintf("%s: the right operand was modified by %s; it is now %s", where, when, univ.Show(xIn))
+		}
+		return ""
+	}
+	res := run.Exec(arrCodes[fn], input, 0, 4)
+	if msg := judgeArr(fn, oarr, ox, res, where); msg != "" {
+		return msg
+	}
+	if msg := untouched("the call"); msg != "" {
+		return msg
+	}
+	first := univ.Copy(res.Vals[0])
+	res2 := run.Exec(arrCodes[fn], input, 0, 4)
+	if msg := judgeArr(fn, oarr, ox, res2, where+" (second call on the same Go value)"); msg != "" {
+		return msg
+	}
+	if !univ.Same(res.Vals[0], first) {
+		return fmt.Sprintf("%s: the first result changed when the consumer ran again on the same value: %s -> %s", where, univ.Show(first), univ.Show(res.Vals[0]))
+	}
+	return untouched("the second call")
 }
 
 // judgeArr: the oracle for one array consumer: res is what gojq produced for
@@ -1074,20 +1107,26 @@ func checkText(text string, vals []any) string {
 }
 
 func checkObj(c objCase) string {
-	v := c.Val.X
-	if !inDomain(v) {
+	if !inDomain(c.Val.X) {
 		return ""
 	}
+	return checkObjIn(c.Form, c.Val.X, univ.Copy(c.Val.X))
+}
+
+// checkObjIn: in is the Go value handed to gojq, v an equal value (a deep
+// copy) the oracle works on.
+func checkObjIn(form string, v, in any) string {
+	c := objCase{Form: form}
 	if _, isText := textForms[c.Form]; isText {
 		var text string
 		if c.Form == "marshal" {
-			b, err := gojq.Marshal(univ.Copy(v))
+			b, err := gojq.Marshal(in)
 			if err != nil {
 				return "Marshal: " + err.Error()
 			}
 			text = string(b)
 		} else {
-			res := run.Exec(objCodes[c.Form], univ.Copy(v), 0, 4)
+			res := run.Exec(objCodes[c.Form], in, 0, 4)
 			s, ok := "", false
 			if res.Err == nil && len(res.Vals) == 1 {
 				s, ok = res.Vals[0].(string)
@@ -1179,7 +1218,7 @@ func checkObj(c objCase) string {
 	default:
 		return ""
 	}
-	res := run.Exec(code, univ.Copy(v), 0, 4)
+	res := run.Exec(code, in, 0, 4)
 	if res.Err != nil || len(res.Vals) != 1 {
 		return fmt.Sprintf("%s on %s: err=%v outputs=%s", iterForms[c.Form], univ.Show(v), res.Err, univ.ShowAll(res.Vals))
 	}
@@ -1875,7 +1914,7 @@ func genArrCase(t *rapid.T, fns ...string) arrCase {
 		arr = s
 		c.X.X = target()
 	case "subtract":
-		m := rapid.IntRange(0, 5).Draw(t, "m")
+		m := rapid.SampledFrom([]int{2, 1, 3, 0, 5, 33, 4, 32, 31, 40}).Draw(t, "m")
 		sub := make([]any, m)
 		for i := range sub {
 			sub[i] = target()
@@ -1919,6 +1958,212 @@ func doArr(sub string, c arrCase) string {
 
 // ---------------------------------------------------------------------------
 
+// ---------------------------------------------------------------------------
+// size sweep: long arrays / wide objects with many equal keys.  Realistic
+// slips are often wrong only beyond a size threshold (Go's sort switches
+// algorithm at 12 elements; fast paths for >= 32 operands; previews of 8).
+// A case is a handful of parameters; the values are a pure function of them.
+
+var sweepSizes = []int{11, 12, 13, 31, 32, 33, 63, 64, 65, 100, 255, 256, 257, 1000}
+var sweepShapes = []string{"random", "nearly-sorted", "reverse", "all-equal", "two-runs"}
+var sweepArrFns = []string{"sort", "sort_by", "group_by", "unique", "unique_by", "min", "max", "min_by", "max_by", "bsearch", "subtract", "index", "rindex", "indices"}
+var sweepFlagSets = []string{"", "-c", "-C", "--tab", "-s --indent 1"}
+
+type sweepCase struct {
+	Kind  string `json:"kind"` // array | object | cli
+	Fn    string `json:"fn"`   // array consumer / object form / command flags
+	N     int    `json:"n"`
+	Shape string `json:"shape"`
+	Pool  int    `json:"pool"`
+	M     int    `json:"m"` // right operand / needle length (0: one element), bsearch: target selector
+	Seed  uint64 `json:"seed"`
+}
+
+type prng uint64
+
+func (p *prng) next() uint64 {
+	*p += 0x9e3779b97f4a7c15
+	z := uint64(*p)
+	z = (z ^ z>>30) * 0xbf58476d1ce4e5b9
+	z = (z ^ z>>27) * 0x94d049bb133111eb
+	return z ^ z>>31
+}
+func (p *prng) intn(n int) int { return int(p.next() % uint64(n)) }
+
+// sweepPools: each pool is a list of equality classes, each class a list of
+// equal values that differ in Go representation.
+var sweepPools = func() [][][]any {
+	b1 := big.NewInt(1)
+	var nums, intstr, bigs [][]any
+	for v := int64(0); v < 6; v++ {
+		nums = append(nums, intReps(big.NewInt(v))[:7])
+	}
+	for v := 0; v < 8; v++ {
+		intstr = append(intstr, []any{v, float64(v), json.Number(strconv.Itoa(v)), big.NewInt(int64(v))})
+	}
+	for _, s := range []string{"0", "1", "7", "10", "9", "a", "aa", "a\x00", "é", "\U00010000"} {
+		intstr = append(intstr, []any{s})
+	}
+	for _, s := range []string{"9007199254740993", "9223372036854775807", "-9223372036854775808", "9223372036854775808", "18446744073709551616", "100000000000000000000", "100000000000000000001"} {
+		bigs = append(bigs, intReps(bigOf(s)))
+	}
+	bigs = append(bigs, floatReps(1.5), floatReps(0.5), floatReps(-0.5), intReps(big.NewInt(0)))
+	mixed := [][]any{{nil}, {false}, {true}, intReps(b1)[:6], {"a"}, {"ab"}, {"b"}, {"é"}, {"\uffff"}, {"\U00010000"},
+		{[]any{1}, []any{1.0}, []any{json.Number("1.0")}, []any{big.NewInt(1)}}, {[]any{1, 2}, []any{1.0, json.Number("2")}}, {[]any{}},
+		{map[string]any{"a": 1}, map[string]any{"a": 1.0}, map[string]any{"a": big.NewInt(1)}}, {map[string]any{"a": 2}}, {map[string]any{}}}
+	return [][][]any{nums, mixed, intstr, bigs}
+}()
+
+// sweepElems draws n elements (class ids and values) from k classes of pool.
+func sweepElems(p *prng, pool [][]any, n int, shape string) (cls []int, vals []any) {
+	k := 2 + p.intn(min(7, len(pool)-1))
+	if shape == "all-equal" {
+		k = 1
+	}
+	classes := make([]int, k)
+	for i := range classes {
+		classes[i] = p.intn(len(pool))
+	}
+	cls, vals = make([]int, n), make([]any, n)
+	for i := range vals {
+		cls[i] = classes[p.intn(k)]
+		vals[i] = univ.Copy(pool[cls[i]][p.intn(len(pool[cls[i]]))])
+	}
+	reorder := func(lo, hi int) { // stable order of vals[lo:hi] by the oracle
+		idx := stableOrder(vals[lo:hi])
+		c2, v2 := make([]int, hi-lo), make([]any, hi-lo)
+		for a, b := range idx {
+			c2[a], v2[a] = cls[lo+b], vals[lo+b]
+		}
+		copy(cls[lo:hi], c2)
+		copy(vals[lo:hi], v2)
+	}
+	switch shape {
+	case "nearly-sorted":
+		reorder(0, n)
+		for s := 0; s < n/16+1; s++ {
+			a, b := p.intn(n), p.intn(n)
+			cls[a], cls[b], vals[a], vals[b] = cls[b], cls[a], vals[b], vals[a]
+		}
+	case "reverse":
+		reorder(0, n)
+		for a, b := 0, n-1; a < b; a, b = a+1, b-1 {
+			cls[a], cls[b], vals[a], vals[b] = cls[b], cls[a], vals[b], vals[a]
+		}
+	case "two-runs":
+		reorder(0, n/2)
+		reorder(n/2, n)
+	case "sorted":
+		reorder(0, n)
+	}
+	return
+}
+
+func sweepKey(i int) string {
+	return []string{"", "a", "aa", "é", "\uffff", "\U00010000"}[i%6] + strconv.Itoa(i/6)
+}
+
+func sweepObject(p *prng, n int) map[string]any {
+	m := make(map[string]any, n)
+	for i := 0; i < n; i++ {
+		var v any = i
+		switch {
+		case i%17 == 3:
+			v = []any{i, map[string]any{"b": i, "a": 1, "é": nil}}
+		case i%23 == 5:
+			v = map[string]any{"z": i, "a": []any{i}, "a1": 0, "a10": 1, "a9": 2}
+		case i%5 == 1:
+			v = univ.Copy(sweepPools[0][p.intn(6)][p.intn(7)])
+		}
+		m[sweepKey(i)] = v
+	}
+	return m
+}
+
+func short(s string) string {
+	if len(s) > 1800 {
+		return s[:1200] + " ...[cut]... " + s[len(s)-500:]
+	}
+	return s
+}
+
+func checkSweep(c sweepCase) string {
+	if c.N < 0 || c.N > 5000 || c.M < 0 || c.M > 5000 || c.Pool < 0 || c.Pool >= len(sweepPools) {
+		return ""
+	}
+	p := prng(c.Seed)
+	tag := fmt.Sprintf("sweep %s/%s n=%d shape=%s pool=%d m=%d: ", c.Kind, c.Fn, c.N, c.Shape, c.Pool, c.M)
+	switch c.Kind {
+	case "object", "cli":
+		in := sweepObject(&p, c.N)
+		v := univ.Copy(in)
+		if c.Kind == "cli" {
+			var flags []string
+			if c.Fn != "" {
+				flags = strings.Split(c.Fn, " ")
+			}
+			if msg := checkCLI(cliCase{Vals: []univ.V{{X: in}, {X: []any{in}}}, Flags: flags, Perm: int(c.Seed % 1000)}); msg != "" {
+				return tag + short(msg)
+			}
+			return ""
+		}
+		for _, call := range []string{"first", "second"} {
+			if msg := checkObjIn(c.Fn, v, in); msg != "" {
+				return tag + call + " call: " + short(msg)
+			}
+			if !univ.Same(in, v) {
+				return tag + "the input object was modified by the " + call + " call"
+			}
+		}
+		return ""
+	case "array":
+	default:
+		return ""
+	}
+	if arrCodes[c.Fn] == nil || c.N == 0 {
+		return ""
+	}
+	pool := sweepPools[c.Pool]
+	shape := c.Shape
+	if c.Fn == "bsearch" && shape != "all-equal" {
+		shape = "sorted"
+	}
+	cls, arr := sweepElems(&p, pool, c.N, shape)
+	var x any
+	switch c.Fn {
+	case "bsearch":
+		tc := c.M % len(pool)
+		x = univ.Copy(pool[tc][p.intn(len(pool[tc]))])
+	case "subtract":
+		_, x = sweepElems(&p, pool, max(1, c.M), "random")
+	case "index", "rindex", "indices":
+		if c.M == 0 || c.M > c.N {
+			x = univ.Copy(arr[p.intn(c.N)])
+			break
+		}
+		s := p.intn(c.N - c.M + 1)
+		needle := make([]any, c.M)
+		for i := range needle { // the same classes, representations drawn again
+			cl := pool[cls[s+i]]
+			needle[i] = univ.Copy(cl[p.intn(len(cl))])
+		}
+		if p.intn(3) == 0 { // usually absent then
+			cl := pool[p.intn(len(pool))]
+			needle[p.intn(c.M)] = univ.Copy(cl[0])
+		}
+		x = needle
+	}
+	if recordFns[c.Fn] {
+		for i, k := range arr {
+			arr[i] = map[string]any{"k": k, "p": i}
+		}
+	}
+	if msg := runArr(c.Fn, arr, x, univ.Copy(arr).([]any), univ.Copy(x)); msg != "" {
+		return tag + short(msg)
+	}
+	return ""
+}
+
 func replayCase(sub string, raw json.RawMessage) string {
 	bad := func(err error) string { return "bad replay: " + err.Error() }
 	switch sub {
@@ -1940,6 +2185,12 @@ func replayCase(sub string, raw json.RawMessage) string {
 			return bad(err)
 		}
 		return checkObj(c)
+	case "sweep":
+		var c sweepCase
+		if err := json.Unmarshal(raw, &c); err != nil {
+			return bad(err)
+		}
+		return checkSweep(c)
 	case "aliased", "aliased-small":
 		var c aliasCase
 		if err := json.Unmarshal(raw, &c); err != nil {
@@ -2106,6 +2357,74 @@ func TestC11(t *testing.T) {
 		}
 	}
 	rec.Exhaustive(fmt.Sprintf("arrays of length <= %d over the %d-value mini universe x 14 consumers", L, len(miniU)), complete)
+
+	// (E4) size sweep: lengths on both sides of 12 / 32 / 64 / 256 and 1000,
+	// every array consumer, every object form and text writer, the command;
+	// thorough: the whole grid, quick: a sample that rotates with the seed but
+	// always holds every (length, consumer) pair twice.
+	complete = true
+	si := 0
+	rot := int(rec.Seed % 1000)
+	sweep := func(c sweepCase, inQuick bool) {
+		si++
+		if !(inQuick || rec.Thorough()) || !rec.Mine(si) {
+			return
+		}
+		c.Seed = evid.Mix(uint64(rec.Seed), "sweep", uint64(si))
+		rec.Eval()
+		rec.Class(fmt.Sprintf("sweep/%s/%s/%s", c.Kind, c.Fn, sizeClass(c.N)))
+		rec.Class(fmt.Sprintf("sweep/n=%d", c.N))
+		b, _ := json.Marshal(c)
+		rec.NT("sweep/" + string(b))
+		rec.Sample(c)
+		if msg := checkSweep(c); msg != "" {
+			rec.Direct("sweep", c, "%s", msg)
+			complete = false
+			tooMany()
+		}
+	}
+	for ni, n := range sweepSizes {
+		for fi, fn := range sweepArrFns {
+			ms := []int{0}
+			switch fn {
+			case "subtract":
+				ms = []int{32, 31, 33, 1, 64, 257, 1000}
+			case "index", "rindex", "indices":
+				ms = []int{0, 3, 32, n / 2, n}
+			case "bsearch":
+				ms = []int{0, 1, 2, 3, 5, 8}
+			}
+			var combos []sweepCase
+			for _, shape := range sweepShapes {
+				for pool := range sweepPools {
+					for _, m := range ms {
+						if fn == "subtract" && n*m > 300000 {
+							m = 300000 / n
+						}
+						combos = append(combos, sweepCase{Kind: "array", Fn: fn, N: n, Shape: shape, Pool: pool, M: m})
+					}
+				}
+			}
+			qa := (ni*11 + fi*3 + rot) % len(combos)
+			qb := (ni*29 + fi*13 + rot*7 + 61) % len(combos)
+			if qb == qa {
+				qb = (qa + 1) % len(combos)
+			}
+			for k, c := range combos {
+				sweep(c, k == qa || k == qb)
+			}
+		}
+		forms := append(append([]string{}, iterFormNames...), textFormNames...)
+		for fi, form := range forms {
+			sweep(sweepCase{Kind: "object", Fn: form, N: n}, (ni+fi+rot)%3 == 0)
+		}
+		for fi, flags := range sweepFlagSets {
+			sweep(sweepCase{Kind: "cli", Fn: flags, N: n}, (ni+rot)%len(sweepFlagSets) == fi)
+		}
+	}
+	if rec.Thorough() {
+		rec.Exhaustive(fmt.Sprintf("size sweep: %d lengths x 14 array consumers x 5 shapes x 4 pools x operand lengths, %d object forms, %d command flag sets", len(sweepSizes), len(iterFormNames)+len(textFormNames), len(sweepFlagSets)), complete)
+	}
 
 	// (E3) values sharing Go storage: every pair of slices of one 4-element
 	// array through Compare / the operators, every triple (pair + needle for
